@@ -560,7 +560,7 @@ func raceCanary() {
 }
 
 func runC17(c *ctx) {
-	c.Rule = "race-detector build of a multi-goroutine driver: a pool of 200 shared objects (templates with variables and ellipses, messages, control messages, encoded byte strings, SML texts, shared fill maps) whose sequential reference results are computed afterwards on independently constructed twins (nothing is asked of a shared object before the concurrent phase, so lazily initialised state is first touched under concurrency); 32 (thorough 64) goroutines hammer a few hot objects per round with String, ToBytes, Variables, Size, Header, SystemBytes, FillVariables (shared read-only map and private maps), ellipsis expansion, SetWaitBit, SetSessionIDAndSystemBytes, Type, response constructors, hsms.Parse of shared buffers (one nested 600 lists deep that all goroutines decode at the same moment, one with 3600 items) and sml.Parse (incl. a 60-row text), a set of 13 constructor/fill calls and 7 texts that must be refused alone and in company, with Gosched jitter; every round starts with barrages (the big list, the deep nest, two long float arrays, then a walk over the whole pool in the same order by everybody, so that first touches coincide) and the hot set always holds templates with shared count and fill maps and complete messages; every 32nd operation builds, prints, expands, parses and fills an object whose variable names the process has never seen (checked against the model); 4 (thorough 15) rounds with different seeds. Oracle: no WARNING: DATA RACE block in the race log whose stacks include a frame of the library, and every call returns what the same call returned in the sequential pre-pass; a deliberately racy canary must be reported or the run is inconclusive. Also (rounds 5-8): shared texts with blanks inside size brackets, shared count maps asking for 300 and 617 repetitions, two shared float arrays of 17000/20000 values, refusals at the item size limit, every caller clears the slices Parse returned, and in the first-touch walk every message gets its first encoding and first derivations from all goroutines; violations printed before the driver runs out of time stand. non-trivial = a call that started while another goroutine's call on the same object was in flight; distinct by (operation, object, round)"
+	c.Rule = "race-detector build of a multi-goroutine driver: a pool of 200 shared objects (templates with variables and ellipses, messages, control messages, encoded byte strings, SML texts, shared fill maps) whose sequential reference results are computed afterwards on independently constructed twins (nothing is asked of a shared object before the concurrent phase, so lazily initialised state is first touched under concurrency); 32 (thorough 64) goroutines hammer a few hot objects per round with String, ToBytes, Variables, Size, Header, SystemBytes, FillVariables (shared read-only map and private maps), ellipsis expansion, SetWaitBit, SetSessionIDAndSystemBytes, Type, response constructors, hsms.Parse of shared buffers (one nested 600 lists deep that all goroutines decode at the same moment, one with 3600 items) and sml.Parse (incl. a 60-row text), a set of 13 constructor/fill calls and 7 texts that must be refused alone and in company, with Gosched jitter; every round starts with barrages (the big list, the deep nest, two long float arrays, then a walk over the whole pool in the same order by everybody, so that first touches coincide) and the hot set always holds templates with shared count and fill maps and complete messages; every 32nd operation builds, prints, expands, parses and fills an object whose variable names the process has never seen (checked against the model); 4 (thorough 15) rounds with different seeds. Oracle: no WARNING: DATA RACE block in the race log whose stacks include a frame of the library, and every call returns what the same call returned in the sequential pre-pass; a deliberately racy canary must be reported or the run is inconclusive. Also (rounds 5-8): shared texts with blanks inside size brackets, shared count maps asking for 300 and 617 repetitions, two shared float arrays of 17000/20000 values, refusals at the item size limit, every caller clears the slices Parse returned, and in the first-touch walk every message gets its first encoding and first derivations from all goroutines; violations printed before the driver runs out of time stand. non-trivial = a call that started while another goroutine's call on the same object was in flight; distinct by (operation, object, round) Also (round 10): three texts that make a factory of package ast panic inside the parser (the parser's recover path) are hot in every round; the long float arrays hold values single precision cannot hold exactly."
 	c.Assume = []string{"the race detector judges the executions that happened, not all interleavings", "GORACE log_path is set by bin/check"}
 
 	logPrefix := ""
